@@ -86,3 +86,47 @@ def check_verdicts(prog, chk, rule_id, rules, names_only=None):
         if lost:
             msg += "; documented but no longer produced: %s" % lost
         chk.ob(rule_id, short, ok, msg, loc=fn.loc(), fn=fn)
+
+
+def check_guards(prog, chk, rule_id, rules):
+    """Guard table of each rule function (comparisons with their operands -> verdict) equals reference/rule_guards.json."""
+    from ksirules.ruletable import normalised_table
+    ref = json.load(open(os.path.join(VERIF, "reference", "rule_guards.json")))["rules"]
+    for r in rules:
+        short = r[len(PFX):]
+        fn = prog.fn(r)
+        tabs, incomplete = normalised_table(prog, fn)
+        got = {k: [{"cmp": [list(map(lambda x: list(x) if isinstance(x, tuple) else x, c)) for c in row[0]], "when": list(row[1]), "verdict": list(row[2])} for row in v]
+               for k, v in tabs.items()}
+        chk.paths += sum(len(v) for v in tabs.values())
+        want = ref.get(short)
+        if want is None:
+            chk.ob(rule_id, short, False, "rule function has no reviewed guard table (reference/rule_guards.json)", loc=fn.loc(), fn=fn)
+            continue
+
+        def key(row):
+            return json.dumps(row, sort_keys=True)
+        diffs = []
+        for variant in sorted(set(got) | set(want)):
+            a = {key(x) for x in got.get(variant, [])}
+            b = {key(x) for x in want.get(variant, [])}
+            if variant not in got:
+                diffs.append("slice '%s' no longer distinguishable from the base slice" % (variant or "all present"))
+                continue
+            if variant not in want:
+                diffs.append("new slice '%s' behaves differently from the base slice: %s" % (variant, sorted(a)[:1]))
+                continue
+            for x in sorted(a - b)[:2]:
+                diffs.append("[%s] NOT in the reviewed table: %s" % (variant or "all present", describe(json.loads(x))))
+            for x in sorted(b - a)[:2]:
+                diffs.append("[%s] reviewed but no longer produced: %s" % (variant or "all present", describe(json.loads(x))))
+        nrows = sum(len(v) for v in got.values())
+        chk.ob(rule_id, short, not diffs,
+               "%d rows in %d slices: each verdict is reached through the reviewed comparisons on the reviewed operands" % (nrows, len(got)) if not diffs
+               else "; ".join(diffs[:4]), loc=fn.loc(), fn=fn, nontrivial=nrows > 1)
+
+
+def describe(row):
+    cm = "; ".join("%s(%s) %s" % (c[0].replace("KSI_", ""), ", ".join(c[1]), {1: "holds", 0: "fails"}.get(c[2], "= %s" % c[2])) for c in row["cmp"]) or "no comparison"
+    wh = (" when " + " and ".join(row["when"])) if row["when"] else ""
+    return "%s%s -> %s/%s status %s" % (cm, wh, row["verdict"][0], row["verdict"][1], row["verdict"][2])
